@@ -24,6 +24,7 @@ fn main() {
         "C06" => checks::c06::run(&mut rep),
         "C07" => checks::c07::run(&mut rep),
         "C08" => checks::c08::run(&mut rep),
+        "C09" => checks::c09::run(&mut rep),
         "C10" => checks::c10::run(&mut rep),
         "C14" => checks::c14::run(&mut rep),
         "C15" => checks::c15::run(&mut rep),
